@@ -131,75 +131,67 @@ def _lines(rows):
 
 
 def concretise(paths, inp):
-    """abstract input record (see Arguments.tla, `input`) -> (prog, argv list).
+    """abstract input record (see Arguments.tla, `inp`) -> (prog, argv list).
 
     Only *representation* decisions are made here (file names, number formatting, line order =
-    the order of the abstract sequences)."""
+    the order of the abstract sequences).  Everything the abstract input says is given is put
+    on the command line, whether or not the program accepts it."""
     prog = inp["prog"]
+    if inp.get("empty"):
+        return prog, []
     argv = []
     bam_paths = [paths["bams"].get(b, paths["notbam"]) for b in inp["bams"]]
     if prog in ("call", "call-exact", "call-pedigree"):
         argv += ["--haplotypes", paths["hap_vcf"]]
     elif prog == "assemble":
-        loc = inp.get("locus", "targets")
-        if loc in ("targets", "both"):
-            argv += ["--targets", paths["bed"]]
-        if loc in ("region", "both"):
-            argv += ["--region", "%s:%d-%d" % (LOCUS[0], LOCUS[1], LOCUS[2])]
         argv += ["--variants", paths["snv_vcf"]]
-    elif prog == "find-snvs":
+    elif prog == "atomize":
+        argv += [paths["hap_vcf"]]  # its only (positional) argument; it has no alignment / sample options
+    loc = inp.get("locus", "none")
+    if loc in ("targets", "both"):
         argv += ["--targets", paths["bed"]]
-    argv += ["--reference", paths["ref"]]
-    form = inp["bamForm"]
-    if form == "list":
-        argv += ["--bam"] + bam_paths
-    elif form == "pathfile":
-        argv += ["--bam", _side_file(paths, "bams", _lines([[p] for p in bam_paths]))]
-    elif form == "pairfile":
-        argv += ["--bam", _side_file(paths, "pairs", _lines([[n, p] for n, p in zip(inp["pairNames"], bam_paths)]))]
-    if inp["rg"] != "default":
-        argv += ["--read-group-field", inp["rg"]]
-    if prog == "find-snvs":
-        return prog, argv
+    if loc in ("region", "both"):
+        argv += ["--region", "%s:%d-%d" % (LOCUS[0], LOCUS[1], LOCUS[2])]
+    if prog != "atomize":
+        argv += ["--reference", paths["ref"]]
+        form = inp["bamForm"]
+        if form == "list":
+            argv += ["--bam"] + bam_paths
+        elif form == "pathfile":
+            argv += ["--bam", _side_file(paths, "bams", _lines([[p] for p in bam_paths]))]
+        elif form == "pairfile":
+            argv += ["--bam", _side_file(paths, "pairs", _lines([[n, p] for n, p in zip(inp["pairNames"], bam_paths)]))]
+        if inp["rg"] != "default":
+            argv += ["--read-group-field", inp["rg"]]
     pool = inp["pool"]
     if pool["kind"] == "name":
         argv += ["--sample-pool", pool["name"]]
     elif pool["kind"] == "file":
         argv += ["--sample-pool", _side_file(paths, "pools", _lines(pool["lines"]))]
     for opt, key, fmt in (("--ploidy", "ploidy", str), ("--inbreeding", "inbreeding", _num)):
-        v = inp.get(key)
-        if v is None or v["kind"] == "default":
-            continue
-        if prog == "call-pedigree" and key == "inbreeding":
-            continue
+        v = inp[key]
         if v["kind"] == "num":
             argv += [opt, fmt(v["num"])]
-        else:
+        elif v["kind"] == "file":
             argv += [opt, _side_file(paths, key, _lines([[n, fmt(x)] for n, x in v["entries"]]))]
-    rep = inp.get("report")
-    if rep is not None:
-        argv += ["--report"] + list(rep)
-    if prog != "call-exact":
-        m = inp.get("mcmc")
-        if m:
-            argv += ["--mcmc-steps", str(m["steps"]), "--mcmc-burn", str(m["burn"]), "--mcmc-seed", str(m["seed"]),
-                     "--mcmc-chains", str(m["chains"])]
-    if prog == "assemble":
-        t = inp.get("temps")
-        if t and t["kind"] == "list":
-            argv += ["--mcmc-temperatures"] + [_num(x) for x in t["values"]]
-        elif t and t["kind"] == "file":
-            argv += ["--mcmc-temperatures", _side_file(paths, "temps", _lines([[n] + [_num(x) for x in xs] for n, xs in t["entries"]]))]
-    if prog == "call-pedigree":
-        ped = inp["ped"]
-        if ped["parents"] is not None:
-            argv += ["--sample-parents", _side_file(paths, "parents", _lines([[s, p, q] for s, p, q in ped["parents"]]))]
-        for opt, key, fmt in (("--gamete-ploidy", "tau", str), ("--gamete-ibd", "ibd", _num), ("--gamete-error", "err", _num)):
-            v = ped[key]
-            if v["kind"] == "default":
-                continue
-            if v["kind"] == "num":
-                argv += [opt, fmt(v["num"])]
-            else:
-                argv += [opt, _side_file(paths, key, _lines([[s, fmt(a), fmt(b)] for s, a, b in v["entries"]]))]
+    if inp["report"]["given"]:
+        argv += ["--report"] + list(inp["report"]["tokens"])
+    m = inp["mcmc"]
+    if m["given"]:
+        argv += ["--mcmc-steps", str(m["steps"]), "--mcmc-burn", str(m["burn"]), "--mcmc-seed", str(m["seed"]),
+                 "--mcmc-chains", str(m["chains"])]
+    t = inp["temps"]
+    if t["kind"] == "list":
+        argv += ["--mcmc-temperatures"] + [_num(x) for x in t["values"]]
+    elif t["kind"] == "file":
+        argv += ["--mcmc-temperatures", _side_file(paths, "temps", _lines([[n] + [_num(x) for x in xs] for n, xs in t["entries"]]))]
+    ped = inp["ped"]
+    if ped["given"]:
+        argv += ["--sample-parents", _side_file(paths, "parents", _lines([[s, p, q] for s, p, q in ped["parents"]]))]
+    for opt, key, fmt in (("--gamete-ploidy", "tau", str), ("--gamete-ibd", "ibd", _num), ("--gamete-error", "err", _num)):
+        v = ped[key]
+        if v["kind"] == "num":
+            argv += [opt, fmt(v["num"])]
+        elif v["kind"] == "file":
+            argv += [opt, _side_file(paths, key, _lines([[s, fmt(a), fmt(b)] for s, a, b in v["entries"]]))]
     return prog, argv
